@@ -81,6 +81,11 @@ CHECKS["C07"] = ("exploration",
          "4.C07", "generated strings (seeded proptest choice streams) x round-trip oracle through independent per-shell string lexers + execution in bash against the reference interpreter",
          "trusted: the per-shell double-quote rules as implemented in strconst.rs (bash manual 3.1.2.3, fish 'Quotes', zshmisc 'Quoting', PowerShell specification 2.3.5.2); fish/zsh/pwsh are not executed")
 
+CHECKS["C04"] = ("translation_validation",
+         "Per generated grammar and shell the emitted script is read back by an independent reader (the shell's own string-quoting rules and index base; for bash and pwsh also their dynamic scoping of table names) into literal list, descriptions, match tables, per-level candidate tables, start states, command functions and registration; the labelled transition set reconstructed from the tables must equal the transition set of the library's minimised automaton, state numbers included, for the main automaton and for every within-word table set (shared shape functions resolved); plus binary == library output and bash -n.",
+         "4.C04", "generated grammars (exhaustive small trees + seeded proptest choice streams, rich in same-shaped / differently shaped / level-resplit within-word expressions) x differential oracle: tables read back from the script vs the compiled automaton",
+         "trusted: the per-shell table readers (scripts.rs, strconst.rs); accepting states are not embedded in any script and cannot be compared; fish/zsh/pwsh interpreter loops are not executed")
+
 NOT_YET = {
 }
 
